@@ -13,6 +13,7 @@
 #include <amgcl/solver/runtime.hpp>
 #include <boost/property_tree/ptree.hpp>
 #include <cmath>
+#include <cstring>
 #include "vf.hpp"
 
 using namespace amgcl;
@@ -104,9 +105,91 @@ template <class V> static void run(const char *vt) {
     vf::space(std::string("stagnating permutation-type systems n=2..7 x 4 structures x 3 scalings x 3 right-hand sides x {gmres l/r, gmres M=30, fgmres, lgmres K=1,2, bicgstabl, idrs} x maxiter 1..n+2, value type ") + vt);
 }
 
+// ------------------------------------------------------------------------------------------------------------------
+// "With maxiter = k ...": prm is a public member that every solver reads at solve time, so a LIVE object whose prm.maxiter
+// is set to k must return what a fresh object constructed with maxiter = k returns (same x0, same rhs), bit for bit.
+// Sequences: constructed with maxiter = 1 and raised (1,3,2,n,n+2); constructed with maxiter = n+2 and lowered (n+2,2,n,1,3).
+#include <amgcl/solver/cg.hpp>
+#include <amgcl/solver/bicgstab.hpp>
+#include <amgcl/solver/bicgstabl.hpp>
+#include <amgcl/solver/gmres.hpp>
+#include <amgcl/solver/fgmres.hpp>
+#include <amgcl/solver/lgmres.hpp>
+#include <amgcl/solver/idrs.hpp>
+#include <amgcl/solver/richardson.hpp>
+typedef backend::builtin<double> RB;
+struct RSys { int n; std::vector<ptrdiff_t> ptr, col; std::vector<double> val, f, x0; };
+static RSys reconf_system(int n, bool sym) {
+    RSys s; s.n = n; s.ptr.push_back(0);
+    for (int i = 0; i < n; ++i) {
+        for (int j = 0; j < n; ++j) {
+            if (std::abs(i - j) > 2 && !(i == 0 && j == n - 1) && !(j == 0 && i == n - 1)) continue;
+            double v = (i == j) ? 6.0 + 0.5 * (i % 3) : -(1.0 + 0.25 * ((std::min(i, j) * 3 + std::max(i, j)) % 4));
+            if (!sym && i < j) v *= 0.5;
+            if (!sym && i > j && (i + j) % 3 == 0) v = 0.75;
+            s.col.push_back(j); s.val.push_back(v);
+        }
+        s.ptr.push_back((ptrdiff_t)s.col.size());
+    }
+    for (int i = 0; i < n; ++i) { s.f.push_back(1.0 + (i * 5) % 7 - 0.125 * i); s.x0.push_back(0.25 * ((i * 3) % 5) - 0.5); }
+    return s;
+}
+template <class S, class Setup>
+static void reconf_one(const char *name, const RSys &sy, const std::string &key, Setup &&setup) {
+    auto At = std::make_tuple((size_t)sy.n, sy.ptr, sy.col, sy.val);
+    preconditioner::dummy<RB> P(At);
+    auto fresh = [&](int k, std::vector<double> &x, size_t &it, double &res) {
+        typename S::params p; setup(p); p.maxiter = k; p.tol = 0;
+        S slv(sy.n, p); x = sy.x0; std::tie(it, res) = slv(P.system_matrix(), P, sy.f, x); };
+    const int n = sy.n;
+    const int up[5] = {1, 3, 2, n, n + 2}, down[5] = {n + 2, 2, n, 1, 3};
+    for (int dir = 0; dir < 2; ++dir) {
+        const int *seq = dir ? down : up;
+        typename S::params p0; setup(p0); p0.maxiter = seq[0]; p0.tol = 0;
+        S live(sy.n, p0);
+        for (int q = 0; q < 5; ++q) {
+            int k = seq[q];
+            live.prm.maxiter = k;
+            std::vector<double> xl = sy.x0, xf; size_t il = 0, iF = 0; double rl = 0, rf = 0;
+            std::string el, ef;
+            try { std::tie(il, rl) = live(P.system_matrix(), P, sy.f, xl); } catch (const std::exception &e) { el = e.what(); }
+            try { fresh(k, xf, iF, rf); } catch (const std::exception &e) { ef = e.what(); }
+            vf::count("reconfigured_solves");
+            bool same = el == ef && (!el.empty() || (il == iF && std::memcmp(&rl, &rf, sizeof rl) == 0 && std::memcmp(xl.data(), xf.data(), xl.size() * sizeof(double)) == 0));
+            if (!same) {
+                double worst = 0; if (el.empty() && ef.empty()) for (int i = 0; i < n; ++i) worst = std::max(worst, std::abs(xl[i] - xf[i]));
+                vf::fail(std::string("reconfigured.maxiter.") + name, key, vf::KS() << "object constructed with maxiter=" << seq[0] << ", prm.maxiter set to " << k << " (step " << q << " of the " << (dir ? "lowering" : "raising") << " sequence): iterations " << il << " vs fresh " << iF
+                    << ", residual " << rl << " vs " << rf << ", max |x - x_fresh| = " << worst << (el.empty() && ef.empty() ? std::string() : " exceptions '" + el + "' / '" + ef + "'"));
+                break;
+            }
+        }
+    }
+}
+static void run_reconfigured() {
+    for (int n : {5, 8}) for (int sym = 0; sym < 2; ++sym) {
+        std::string key = vf::KS() << "reconf|" << n << "|" << (sym ? "sym" : "nonsym");
+        if (!vf::take([&]{ return key; })) continue;
+        RSys sy = reconf_system(n, sym);
+        vf::nontrivial(vf::hstr(key));
+        if (sym) reconf_one<solver::cg<RB>>("cg", sy, key, [](solver::cg<RB>::params &) {});
+        reconf_one<solver::bicgstab<RB>>("bicgstab", sy, key, [](solver::bicgstab<RB>::params &) {});
+        for (int L : {1, 2}) reconf_one<solver::bicgstabl<RB>>("bicgstabl", sy, key, [L](solver::bicgstabl<RB>::params &p) { p.L = L; });
+        for (int M : {2, 4, 30}) {
+            reconf_one<solver::gmres<RB>>("gmres", sy, key, [M](solver::gmres<RB>::params &p) { p.M = M; });
+            reconf_one<solver::gmres<RB>>("gmres.left", sy, key, [M](solver::gmres<RB>::params &p) { p.M = M; p.pside = preconditioner::side::left; });
+            reconf_one<solver::fgmres<RB>>("fgmres", sy, key, [M](solver::fgmres<RB>::params &p) { p.M = M; });
+            reconf_one<solver::lgmres<RB>>("lgmres", sy, key, [M](solver::lgmres<RB>::params &p) { p.M = M; p.K = 2; });
+        }
+        for (int sdim : {1, 3}) reconf_one<solver::idrs<RB>>("idrs", sy, key, [sdim](solver::idrs<RB>::params &p) { p.s = sdim; });
+        reconf_one<solver::richardson<RB>>("richardson", sy, key, [](solver::richardson<RB>::params &p) { p.damping = 0.5; });
+    }
+    vf::space("live solver objects reconfigured through prm.maxiter (raised from 1, lowered from n+2) vs fresh objects: n in {5,8} x {symmetric, non-symmetric} x {cg, bicgstab, bicgstabl L=1,2, gmres l/r M=2,4,30, fgmres, lgmres, idrs s=1,3, richardson}");
+}
+
 int main(int argc, char **argv) {
     vf::init(argc, argv, "C05");
     vf::sample_str("stagnation case: cyclic shift n=5 (A e_j = e_{j+1}), f = e_1, x0 = 0, identity preconditioner, GMRES(5): the residual stays 1 for 4 steps (H(j,j) = 0 exactly) and the system is solved at step 5");
     if (vf::section("stag")) { run<double>("double"); run<std::complex<double>>("cdouble"); }
+    if (vf::section("reconf")) run_reconfigured();
     return vf::finish();
 }
